@@ -480,7 +480,7 @@ def part_gauge_blocks(rep, rng, thorough, recs, skipped, usable):
     smp = [r for r in recs if r["fn"] == "degen" and r["out"]]
     if smp:
         rep.sample(smp[0])
-    if not all(len(recs) + n in bad for n in range(len(corrupt))):
+    if not all(len(recs) + n in bad for n in range(len(corrupt))) and not rep.violations:   # (with findings the corrupted copy of a wrong record may be right)
         raise MachineryError(f"binding self-test failed: corrupted records accepted ({ {k: v for k, v in bad.items() if k >= len(recs)} })")
     rep.part("binding_selftest", corrupted_records_rejected={str(k - len(recs)): v for k, v in bad.items() if k >= len(recs)})
     return state
